@@ -14,6 +14,7 @@
 package conn
 
 import (
+	"encoding/binary"
 	"errors"
 	"fmt"
 	"net"
@@ -51,13 +52,34 @@ func (rb RemoteBitfields) unmarshalBinary(rbBytes map[string][]byte) error {
 		if err != nil {
 			return fmt.Errorf("peer id: %s", err)
 		}
-		bitfield := bitset.New(0)
-		if err := bitfield.UnmarshalBinary(bitfieldBytes); err != nil {
+		bitfield, err := unmarshalBitfield(bitfieldBytes)
+		if err != nil {
 			return err
 		}
 		rb[peerID] = bitfield
 	}
 	return nil
+}
+
+// unmarshalBitfield decodes a bitfield sent by a remote peer. The encoding
+// starts with the number of bits, which BitSet.UnmarshalBinary allocates for
+// before looking at the data, so the announced length must be checked against
+// the bytes actually received first.
+func unmarshalBitfield(b []byte) (*bitset.BitSet, error) {
+	const header = 8
+	if len(b) < header {
+		return nil, errors.New("bitfield: missing length header")
+	}
+	length := binary.BigEndian.Uint64(b[:header])
+	if length > uint64(len(b)-header)*8 {
+		return nil, fmt.Errorf(
+			"bitfield: announced length of %d bits exceeds the %d bytes received", length, len(b)-header)
+	}
+	bitfield := bitset.New(0)
+	if err := bitfield.UnmarshalBinary(b); err != nil {
+		return nil, err
+	}
+	return bitfield, nil
 }
 
 // handshake contains the same fields as a protobuf bitfield message, but with
@@ -114,8 +136,8 @@ func handshakeFromP2PMessage(m *p2p.Message) (*handshake, error) {
 	if err != nil {
 		return nil, fmt.Errorf("name: %s", err)
 	}
-	bitfield := bitset.New(0)
-	if err := bitfield.UnmarshalBinary(bitfieldMsg.BitfieldBytes); err != nil {
+	bitfield, err := unmarshalBitfield(bitfieldMsg.BitfieldBytes)
+	if err != nil {
 		return nil, err
 	}
 	remoteBitfields := make(RemoteBitfields)
@@ -243,6 +265,9 @@ func (h *Handshaker) Establish(
 	info *storage.TorrentInfo,
 	remoteBitfields RemoteBitfields) (*Conn, error) {
 
+	if err := checkBitfieldLength(pc.handshake.bitfield, info); err != nil {
+		return nil, err
+	}
 	// Namespace is one-directional: it is only supplied by the connection opener
 	// and is not reciprocated by the connection acceptor.
 	if err := h.sendHandshake(pc.nc, info, remoteBitfields, ""); err != nil {
@@ -332,11 +357,25 @@ func (h *Handshaker) fullHandshake(
 	if hs.peerID != peerID {
 		return nil, errors.New("unexpected peer id")
 	}
+	if err := checkBitfieldLength(hs.bitfield, info); err != nil {
+		return nil, err
+	}
 	c, err := h.newConn(nc, peerID, isPeerOrigin, info, false)
 	if err != nil {
 		return nil, fmt.Errorf("new conn: %s", err)
 	}
 	return &HandshakeResult{c, hs.bitfield, hs.remoteBitfields}, nil
+}
+
+// checkBitfieldLength rejects a remote bitfield which does not have exactly one
+// bit per piece of the torrent: everything downstream indexes per-piece state
+// with the bits set in it.
+func checkBitfieldLength(b *bitset.BitSet, info *storage.TorrentInfo) error {
+	if b.Len() != info.Bitfield().Len() {
+		return fmt.Errorf(
+			"remote bitfield has %d bits, torrent has %d pieces", b.Len(), info.Bitfield().Len())
+	}
+	return nil
 }
 
 func (h *Handshaker) newConn(
